@@ -230,3 +230,7 @@ Definition unit_check (fn : nat) (before after : graph) : bool :=
 
 Definition unit_cases_failing (cs : list (nat * (nat * graph * graph))) : list nat :=
   flat_map (fun c => let '(i, (fn, b, a)) := c in if unit_check fn b a then [] else [i]) cs.
+
+(* the crossing counter on a synthetic proper layering: the model's count must be the implementation's *)
+Definition cross_failing (cs : list (nat * (graph * Z))) : list nat :=
+  flat_map (fun c => let '(i, (g, k)) := c in if (reported_crossings g =? k)%Z then [] else [i]) cs.
